@@ -56,7 +56,7 @@ def reseat_bpm_changes_snap(
 
         # BCS_0 is guaranteed to be on a measure.
         # Extend case, see docstring
-        if 0 < measure_diff_rem <= extend_threshold:
+        if 0 < measure_diff_rem <= extend_threshold and measure_diff_quo >= 1:
             # Extend by nudging bpm
             bcs = BpmChangeSnap(
                 bcs_0.bpm / (measure_diff_rem + 1),
@@ -73,7 +73,7 @@ def reseat_bpm_changes_snap(
                 offsets.insert(i + 1, offset)
 
         # Extend case, see docstring
-        elif 0 < beat_diff_rem <= extend_threshold:
+        elif 0 < beat_diff_rem <= extend_threshold and beat_diff_quo % bcs_0.metronome >= 1:
             # Check if it's possible to extend by changing metronome
             metronome = beat_diff_quo % bcs_0.metronome
             bcs = BpmChangeSnap(
@@ -92,7 +92,7 @@ def reseat_bpm_changes_snap(
                 bcs_s.insert(i + 1, bcs)
                 offsets.insert(i + 1, offset)
 
-        elif measure_diff_rem > extend_threshold:
+        elif measure_diff_rem > 0:
             # This means it's not possible to simply extend
             bcs = BpmChangeSnap(
                 bcs_0.bpm / measure_diff_rem,
